@@ -47,6 +47,15 @@ import SphericalVerif.Props.GenMethod
 #print axioms GenMethod.sYlm_rotor_only
 #print axioms GenMethod.evaluate_rotor_only
 #print axioms GenMethod.rotate_rotor_only
+#print axioms GenMethod.loop_keeps
+#print axioms GenMethod.loop_keepsC
+#print axioms GenMethod.D_rotor_pure
+#print axioms GenMethod.D_loop_row
+#print axioms GenMethod.sYlm_rotor_pure
+#print axioms GenMethod.sYlm_loop_row
+#print axioms GenMethod.evaluate_rotor_pure
+#print axioms GenMethod.evaluate_loop_col
+#print axioms GenMethod.rotate_rotor_pure
 #print axioms GenMethod.D_rotor_doc
 #print axioms GenMethod.sYlm_rotor_doc
 #print axioms GenMethod.evaluate_rotor_doc
